@@ -321,5 +321,23 @@ CHECKS["C19"] = {
     "note": "one fault per operation; post_setattr not in the statement's callback list; single keyword for "
             "trait_set/constructor",
 }
+CHECKS["C18"] = {
+    "category": "fault_enumeration",
+    "technique": "bounded exhaustive exploration re-executed on an AddressSanitizer+UBSan build of ctraits.c, plus reference-count drift enumeration over an operation x outcome menu",
+    "text": "Against a clang -fsanitize=address,undefined build of traits/ctraits.c (rebuilt from the working tree, "
+            "loaded under the stock interpreter with the ASan runtime preloaded): (i) about one shard in six (one in "
+            "two thorough) of the drivers of C01-C04, C08-C14, C16, C17, C19, C20 at their quick bounds, i.e. all "
+            "operation families incl. every C19 fault position, C14 trait-definition pickle/copy round trips of ~60 "
+            "definition kinds and explicit GC events; any sanitizer report, signal or SystemError kills the worker "
+            "and is reported with the journalled case. (ii) a 58-cell reference-neutrality menu (success and every "
+            "error exit of set/get/del for every validator kind, properties whose getter/setter raise, failing "
+            "defaults, delegates without delegate / with invalid values / prefixes, str-subclass and non-str names, "
+            "handlers added, removed or raising during dispatch, an earlier anytrait handler removing a later one, "
+            "del with a failing default under a notifier, add/remove_trait, CTrait clone/getstate/pickle/set_validate/"
+            "set_default_value with good and rejected arguments, object round trips): each cell runs 3+24 times with "
+            "sentinel objects and sys.getrefcount of the sentinel value and of the object must not drift.",
+    "note": "a sanitizer only sees executed paths; allocation-failure paths and crafted __setstate__ tuples are out; "
+            "trusted base: clang 14 ASan/UBSan runtime",
+}
 
 NOT_CLAIMED = {}
